@@ -15,6 +15,7 @@ class StopRequests(Observer):
         self.probes = {}
         self.requests = []       # dict(s, inc, ns, app, target, t_us, seq)
         self.handler_reqs = {}   # (nick, inc) -> requests pushed in the handler in progress
+        self.start_requests = {}  # (nick, inc, ns, target) -> [t_us] start requests of this instance
         self.forced_stopped = {}  # (nick, inc, ns) -> t_us (stop given up on time-out)
         self.orders = []         # supervisor.restart / shutdown received: dict(inst, inc, method, t_us, src)
         self.final_pub = {}      # (nick, inc) -> t_us of FINAL publication
@@ -22,6 +23,7 @@ class StopRequests(Observer):
         self.alive_at_order = None
         self.dropped_state = {}
         self.ending_view = {}
+        self.ending_view_t = {}
 
     def _probe(self, name):
         self.probes[name] = self.probes.get(name, 0) + 1
@@ -43,6 +45,8 @@ class StopRequests(Observer):
     # --- stop requests ---------------------------------------------------------------------------
     def on_request(self, sim, s, identifier, rtype, body):
         from supvisors.ttypes import RequestHeaders
+        if rtype == RequestHeaders.START_PROCESS:
+            self.start_requests.setdefault((s.nick, s.incarnation, body[0], identifier), []).append(sim.now_us)
         if rtype != RequestHeaders.STOP_PROCESS:
             return
         ns = body[0]
@@ -80,11 +84,20 @@ class StopRequests(Observer):
                 plan_t0 = min((r['t_us'] for r in self.requests if r['s'] == s.nick and r['inc'] == s.incarnation
                                and r['app'] == app_name and sim.now_us - r['t_us'] < 60 * US), default=sim.now_us)
                 skipped = {w for w in where if self._born(q.namespec, w) < plan_t0} if not asked else set()
-                if (s.nick, s.incarnation, q.namespec) in self.forced_stopped:
+                # given up on time-out: the forced STOPPED is applied locally before it is published (the next requests
+                # leave in between), so the requester's own forced state is read too
+                if (s.nick, s.incarnation, q.namespec) in self.forced_stopped or q.forced_state is not None:
                     not_waited = set()
                 if not_waited or skipped:
                     kind = 'not-waited' if not_waited else 'skipped'
                     sig = 'higher-sequence-still-running:%s:%s' % (kind, real)
+                    if kind == 'skipped' and all(
+                            any(plan_t0 - 30 * US <= t <= plan_t0 and self._born(q.namespec, w) >= t
+                                for t in self.start_requests.get((s.nick, s.incarnation, q.namespec, w), ()))
+                            for w in skipped):
+                        # recorded finding: the stop plan was built while a start request of this very instance was in
+                        # flight (the copy was not yet known as running) and is not revised when the copy shows up
+                        sig = 'higher-sequence-still-running:own-start-in-flight-when-stop-plan-built'
                     if real == 'STOPPING':
                         # recorded finding: a process already STOPPING (asked by another plan / requester, or by a plan
                         # of the same instance that was aborted) is skipped by process_job and not waited
@@ -105,6 +118,7 @@ class StopRequests(Observer):
                         if q.state_string() in BUSY and q.running_identifiers
                         and self._truly(q.namespec) & set(q.running_identifiers)
                         and (s.nick, s.incarnation, q.namespec) not in self.forced_stopped
+                        and q.forced_state is None
                         and (planned is None or any((q.namespec, i) in planned for i in q.running_identifiers))]
                 if busy and all(other.processes[b.split(':')[1]].state_string() == 'STOPPING' for b in busy):
                     self.violate('higher-application-still-running',
@@ -137,6 +151,7 @@ class StopRequests(Observer):
                         for ident in q.running_identifiers:
                             view.add((q.namespec, ident))
             self.ending_view.setdefault((inst.nick, inst.incarnation), view)   # the first publication only
+            self.ending_view_t.setdefault((inst.nick, inst.incarnation), sim.now_us)
         elif ptype == PublicationHeaders.STATE and body['fsm_statename'] == 'FINAL':
             key = (inst.nick, inst.incarnation)
             if key not in self.final_pub:
@@ -175,6 +190,24 @@ class StopRequests(Observer):
                                 for r in self.requests)
                     plan_t0 = min((r['t_us'] for r in self.requests if r['s'] == inst.nick and r['inc'] == inst.incarnation
                                    and r['app'] == app_name and sim.now_us - r['t_us'] < 60 * US), default=sim.now_us)
+                    # an ending plan (restart / shutdown) is built for all the applications at once, when the state is entered
+                    planned = self.ending_view.get(key)
+                    if planned is not None and inst.supvisors.fsm.state.name in ('RESTARTING', 'SHUTTING_DOWN'):
+                        plan_t0 = min(plan_t0, self.ending_view_t.get(key, plan_t0))
+                    own_start = any(plan_t0 - 30 * US <= t <= plan_t0 for t in
+                                    self.start_requests.get((inst.nick, inst.incarnation, q.namespec, ident), ()))
+                    unseen = planned is not None and (q.namespec, ident) not in planned \
+                        and inst.supvisors.fsm.state.name in ('RESTARTING', 'SHUTTING_DOWN')
+                    if not asked and unseen and ident in self._truly(q.namespec, RUNNING_STATES):
+                        # the copy was not known as running when the ending plan was built (its first event was in flight)
+                        if own_start:
+                            self.violate('same-sequence-not-together',
+                                         {'requester': inst.nick, 'process': q.namespec, 'on': ident,
+                                          'stop_sequence': q.rules.stop_sequence},
+                                         'same-sequence-not-together:own-start-in-flight-when-stop-plan-built')
+                        else:
+                            self._probe('copy_unknown_at_plan_time')
+                        continue
                     if not asked and ident in self._truly(q.namespec, RUNNING_STATES) \
                             and self._born(q.namespec, ident) < plan_t0:
                         self._probe('same_level_checked')
@@ -183,6 +216,14 @@ class StopRequests(Observer):
                                       'stop_sequence': q.rules.stop_sequence,
                                       'asked': sorted((r['ns'], r['target']) for r in reqs)},
                                      'same-sequence-not-together')
+                    elif not asked and ident in self._truly(q.namespec, RUNNING_STATES) and any(
+                            plan_t0 - 30 * US <= t <= plan_t0 and self._born(q.namespec, ident) >= t
+                            for t in self.start_requests.get((inst.nick, inst.incarnation, q.namespec, ident), ())):
+                        # recorded finding (same mechanism as at process level)
+                        self.violate('same-sequence-not-together',
+                                     {'requester': inst.nick, 'process': q.namespec, 'on': ident,
+                                      'stop_sequence': q.rules.stop_sequence},
+                                     'same-sequence-not-together:own-start-in-flight-when-stop-plan-built')
                         return
 
     # --- restart / shutdown ----------------------------------------------------------------------
@@ -193,7 +234,11 @@ class StopRequests(Observer):
         if item['kind'] == 'rpc' and item['method'] in ('supvisors.restart', 'supvisors.shutdown') and self.sim.oplog:
             rec = self.sim.oplog[-1]
             if rec['method'] == item['method'] and rec.get('result') is True and self.ending is None:
-                self.ending = {'t_us': rec['t_us'], 'method': item['method'], 'inst': item['inst']}
+                acc = self.sim.instances.get(item['inst'])
+                self.ending = {'t_us': rec['t_us'], 'method': item['method'], 'inst': item['inst'],
+                               'inc': acc.incarnation if acc is not None else None,
+                               'was_master': bool(acc is not None and acc.alive and acc.supvisors is not None
+                                                  and acc.supvisors.state_modes.is_master())}
                 # the instances that are part of Supvisors at that instant (a late comer still synchronising is not)
                 self.alive_at_order = {(i.nick, i.incarnation) for i in self.sim.instances.values()
                                        if i.alive and i.supvisors is not None
@@ -245,6 +290,15 @@ class StopRequests(Observer):
         if sim.aborted or self.ending is None:
             return
         method = 'supervisor.' + self.ending['method'].split('.')[1]
+        # the order was accepted by a non-Master instance that crashed before its relay to the Master was delivered: the
+        # order died with it (the statement covers the loss of a non-Master DURING the ending phase, which never began)
+        acc = sim.instances.get(self.ending['inst'])
+        if not self.ending.get('was_master') and (acc is None or not acc.alive or acc.incarnation != self.ending.get('inc')):
+            relayed = any(r['src'] == self.ending['inst'] and r['method'] == self.ending['method'] and r['via'] == 'proxy'
+                          and r.get('outcome') in ('ok', 'fault') and r['t_us'] >= self.ending['t_us'] for r in sim.wire)
+            if not relayed:
+                self._probe('order_lost_with_crashed_relay')
+                return
         # exactly one order per Supervisor incarnation
         count = {}
         for o in self.orders:
